@@ -2,7 +2,7 @@
 BASE = dict(subst={"p2bin.c": [("#define BufferSize 4096", "#define BufferSize 16")]}, src="p2bin.c", include=["p2bin.c", "toolutils.c"], units=[], stubs=[],
             assumes=["stdio replaced by the memory-file model (input: byte array, output: witness cell)",
                      "option callbacks not executed: option statics set directly to arbitrary values of their documented domains",
-                     "message catalogue, printf output cut", "chunks.c AddChunk replaced by its contract (true intersection with an earlier range)", "all selected records share one granularity; window start aligned to the -m lane group", "p2bin copy buffer shrunk from 4096 to 16 bytes (chunking exercised with small chunks); image window <= 64 bytes"])
+                     "message catalogue, printf output cut", "chunks.c AddChunk replaced by its contract (true intersection with an earlier range)", "all selected records share one granularity", "p2bin copy buffer shrunk from 4096 to 16 bytes (chunking exercised with small chunks); image window <= 64 bytes"])
 def ob(name, defs, bounds, **kw):
     d = dict(BASE); d.update(name=name, defs=defs, bounds=bounds,
                              functions=["p2bin.c:MeasureFile", "p2bin.c:OpenTarget", "p2bin.c:ProcessFile", "p2bin.c:CloseTarget",
@@ -13,10 +13,10 @@ SHORTCPU = {1: "0x11", 2: "0x70", 4: "0x76"}
 OBLIGATIONS = []
 for g in (1, 2, 4):
     for m in range(9):
-        quick = (g, m) in ((2, 1), (4, 7))
-        OBLIGATIONS.append(ob("image_g%d_%s" % (g, MODES[m].lower()), ["CF_R=2", "CF_L=4", "STRINGSIZE=16", "GRAN=%d" % g, "MODE=%d" % m, "SHORTCPU=%s" % SHORTCPU[g]],
-                              "2 records x <= 4 bytes (long and short form), granularity %d, -m %s, any start < 2^31, window <= 2048 units, -S -4..4, -e, -f list <= 2, -segment, auto/explicit range, (offset) <= 0x1000" % (g, MODES[m]),
-                              timeout=1500, tier="quick" if quick else "thorough"))
+        quick = (g, m) in ((1, 1), (4, 7))
+        OBLIGATIONS.append(ob("image_g%d_%s" % (g, MODES[m].lower()), ["CF_R=2", "CF_L=4", "STRINGSIZE=16", "GRAN=%d" % g, "MODE=%d" % m, "SHORTCPU=%s" % SHORTCPU[g]] + (["WINMAX=24"] if quick else []),
+                              "2 records x <= 4 bytes (long and short form), granularity %d, -m %s, any start < 2^31, image window <= %d bytes (not necessarily aligned to the lane group), -S -4..4, -e, -f list <= 2, -segment, auto/explicit range, (offset) <= 0x1000" % (g, MODES[m], 24 if quick else 64),
+                              timeout=3000, tier="quick" if quick else "thorough"))
 OBLIGATIONS.append(dict(name="removeoffset", src="offset.c", include=["toolutils.c"], defs=["STRINGSIZE=16"], unwind=10, unwind_fn={"harness": 10},
     functions=["toolutils.c:RemoveOffset"], bounds="file arguments of 0..5 arbitrary characters, arbitrary previous content of the offset variable",
     assumes=["ConstLongInt (number parsing) cut to 'returns an arbitrary value, success'"]))
